@@ -178,8 +178,8 @@ def run(ck, fx, cg, tier):
 
     # ------------------------------------------------------------ who-may-call allocate
     adid = alloc["did"]
-    callers = sorted({cg.path[d] for d in cg.callers_of(adid)})
     expect = {"bytecode::interpreter::eval_object", "bytecode::interpreter::eval_array"}
+    callers = sorted(shared.effective_callers(fx, cg, adid, expect))
     ck.ob("R16.onepush", "callers of Heap::allocate", set(callers) == expect, loc(alloc),
           "callers: %s (expected exactly eval_object and eval_array)" % ", ".join(callers))
     for c in callers:
@@ -190,6 +190,23 @@ def run(ck, fx, cg, tier):
         p2, l2, b2 = preorder_index(hb)
         sites = [n for n, _ in walk_body(hb) if n.get("k") in ("Call", "MethodCall") and callee_name(n) == alloc["path"]]
         ok = len(sites) == 1 and not l2[id(sites[0])]
+        if not ok:
+            # decided on the handler's paths instead (helpers inlined): every successful path allocates exactly once,
+            # outside any loop
+            try:
+                from . import c05_vm as _V
+                exh, pth, errh = _V.handler_paths(fx, c.rsplit("::", 1)[-1])
+                oks_h = _V.ok_paths(pth) if pth else []
+                per = []
+                for ph in oks_h:
+                    top = [e for e in ph["eff"] if e["k"] == "alloc" or (e["k"] == "call" and e["args"][0][1].endswith("Heap::allocate"))]
+                    nested = [e for e in _V._all_effects(ph["eff"]) if (e["k"] == "alloc" or (e["k"] == "call" and e["args"][0][1].endswith("Heap::allocate")))]
+                    per.append(len(top) == 1 and len(nested) == 1)
+                if per and all(per):
+                    ck.ob("R16.onepush", "%s|allocates exactly once" % c, True, loc(hb), "every successful path of the handler (helpers inlined) allocates exactly once, outside any loop (%d path(s))" % len(per))
+                    continue
+            except Exception:   # noqa
+                pass
         ck.ob("R16.onepush", "%s|allocates exactly once" % c, ok, loc(hb),
               "%d allocate call(s); in loop/closure: %s" % (len(sites), [bool(l2[id(s)]) for s in sites]))
     # primitives never allocate: no HeapObject construction outside the two evaluators' helpers is a C14 matter;
@@ -237,12 +254,17 @@ def run(ck, fx, cg, tier):
     # callers of set_size / set_log: only evaluate_with_memory_config
     for role in ("heap.set_size", "heap.set_log"):
         b = fx.body(A.get(role))
-        cs = sorted({cg.path[d] for d in cg.callers_of(b["did"])})
-        ck.ob("R16.inert", "callers of %s" % role, cs == [A.get("evaluate_mem")], loc(b), "callers: %s" % cs)
+        cs = sorted(shared.effective_callers(fx, cg, b["did"], {A.get("evaluate_mem")}))
+        ck.ob("R16.inert", "callers of %s" % role, cs == [A.get("evaluate_mem")], loc(b), "callers (through private helpers): %s" % cs)
     # the CLI number is not used in profile-dependent arithmetic nor anywhere besides set_size
     seeds, body_taint, tparams = shared.cli_taint(fx, cg)
     touched = sorted({fx.hir_by_did[d]["path"] for (d, i) in tparams if d in fx.hir_by_did})
     allowed = {A.get("evaluate_mem"), A.get("heap.set_size")}
+    # private helpers called only from the allowed functions are part of them
+    for t in list(touched):
+        hb_t = fx.body(t)
+        if t not in allowed and hb_t is not None and shared.effective_callers(fx, cg, hb_t["did"], allowed) <= allowed and hb_t.get("vis") != "Public":
+            allowed.add(t)
     ck.ob("R16.inert", "flow of the --heap-size number", set(touched) <= allowed, "",
           "functions receiving the CLI number: %s (allowed: evaluate_with_memory_config, Heap::set_size)" % touched)
     ck.floor("R16.inert", "CLI numeric fields found", len(seeds), 2)
